@@ -97,7 +97,7 @@ def build_solver(cfg, rng, extra=None):
         opts.update(extra)
     with warnings.catch_warnings():
         warnings.simplefilter("ignore")
-        if rng.random() < 0.15:
+        if DECOYS[0] == 0 or rng.random() < 0.15:       # always before the first solver of a run
             # another solver of the same process, configured for sampling, noise and a penalty: nothing of it may leak
             # into the solver built next (defaults shared between instances)
             from tangelo.linq.noisy_simulation import NoiseModel
@@ -528,15 +528,21 @@ def run(ctx):
             if variant != "plain" and cfg["ansatz"] not in ("UCCSD", "UpCCGSD", "UCCGD", "HEA"):
                 continue
             ok &= energy_case(ctx, cfg, rng, variant)
+            if len(ctx.violations) + len(ctx.mismatches) >= 3:
+                return ok
     # penalty terms: every encoding, molecules with and without (an odd number of) frozen occupied orbitals
     pen_cfgs = [c for c in cfgs if c["ansatz"] == "UCCSD" and c["mol"] in ("H2", "H4f", "H4+")]
     rng.shuffle(pen_cfgs)
     must = [c for c in pen_cfgs if c["mapping"] == "scBK" and c["mol"] == "H4f"][:2]
     for cfg in must + [c for c in pen_cfgs if c not in must][:ctx.n(4, len(pen_cfgs))]:
         ok &= energy_case(ctx, cfg, rng, "penalty")
+        if len(ctx.violations) + len(ctx.mismatches) >= 3:
+            return ok
     defl = [c for c in cfgs if c["ansatz"] in ("UCCSD", "UpCCGSD", "HEA", "pUCCD", "QCC") and c["mol"] in ("H2", "H4f")]
     for _ in range(ctx.n(8, 40)):
         ok &= deflation_case(ctx, rng.choice(defl), rng)
+        if len(ctx.violations) + len(ctx.mismatches) >= 3:
+            return ok
     for _ in range(ctx.n(6, 30)):
         ok &= projective_case(ctx, rng)
     for _ in range(ctx.n(15, 100)):
